@@ -2,7 +2,7 @@
     history of Location operations (several locations, both state kinds)
     through the model, and judges every read against the index-free
     specification (the same abstract fact map searched linearly). *)
-From Verif Require Import Json Outcome Match PatIndex State Location SysOps.
+From Verif Require Import Json Outcome Match PatIndex State Location SysOps Query QueryOps QuerySpec.
 
 Definition classify (e : string) : string :=
   if String.eqb e E_disabled || String.eqb e E_denied || String.eqb e E_capacity ||
@@ -42,7 +42,11 @@ Definition canon_obs (o : json) : json :=
                                                 end) l))) (jO j))
     | _ => j
     end in
-  fix_list "children" (fix_list "found" o).
+  let o2 := fix_list "children" (fix_list "found" o) in
+  match jget "bss" o2 with
+  | Some (JArr b) => JObj (ainsert "bss" (JArr (canon_multiset b)) (jO o2))
+  | _ => o2
+  end.
 
 Definition dec_ctx (o : json) : ctx := mkCtx (jfS "rk" o) (jfS "wk" o).
 Definition dec_env (o : json) (now : Z) : env :=
@@ -93,6 +97,11 @@ Definition render (op : lop) (r : lres) : json :=
 
 (** One operation: new system and the model's observable result. *)
 Definition run_op (sy : system) (o : json) (now : Z) : system * json :=
+  if String.eqb (jfS "op" o) "query" then
+    let '(sy', r) := sys_query sy (jfS "loc" o) (dec_ctx o) (dec_env o now)
+                               (sem_of_table (jget_d "sem" o)) (jnorm (jget_d "query" o)) in
+    (sy', res_of r (fun bss => [("bss", json_of_bss bss)]))
+  else
   match dec_op o with
   | None => (sy, JObj [("class", JStr "unknown-op"); ("ok", JBool false)])
   | Some op =>
@@ -111,7 +120,8 @@ Definition as_linear (sy : system) : system :=
                                      (st_hooks s) (st_calls s) (st_fail s) false))) sy.
 
 Definition is_read_op (op : string) : bool :=
-  String.eqb op "search" || String.eqb op "event" || String.eqb op "getfact" || String.eqb op "getrule".
+  String.eqb op "search" || String.eqb op "event" || String.eqb op "getfact" || String.eqb op "getrule" ||
+  String.eqb op "query".
 
 (** Known-finding predicates (decidable, on the case). *)
 Fixpoint has_propvar (p : json) : bool :=
@@ -140,8 +150,51 @@ Fixpoint event_risky (ev : json) : bool :=
   | _ => false
   end.
 
+(** All `pattern` members of a query document. *)
+Fixpoint query_patterns (fuel : nat) (q : json) : list json :=
+  match fuel with
+  | O => []
+  | S f =>
+      match q with
+      | JObj kvs =>
+          flat_map (fun kv => if String.eqb (fst kv) "pattern"
+                              then (match snd kv with JObj _ => [snd kv] | _ => [] end)
+                              else query_patterns f (snd kv)) kvs
+      | JArr l => flat_map (query_patterns f) l
+      | _ => []
+      end
+  end.
+
+(** The query judged against the denotational specification [den] over the
+    index-free (linear) search of the same facts. *)
+Definition spec_query (sy : system) (o : json) (now : Z) : json :=
+  let name := jfS "loc" o in
+  let c := dec_ctx o in
+  let e := dec_env o now in
+  let sem := sem_of_table (jget_d "sem" o) in
+  let q := jnorm (jget_d "query" o) in
+  let syl := as_linear sy in
+  match sys_get syl name with
+  | None => res_of (@Err unit E_noloc) (fun _ => [])
+  | Some l =>
+      if negb (snd (enabled l now)) then res_of (@Err unit E_disabled) (fun _ => []) else
+      match parse_query sem (parse_fuel q) q with
+      | Ok pq =>
+          res_of (den (fun locs p => snd (sys_search_locs name c e syl locs p)) sem pq [])
+                 (fun bss => [("bss", json_of_bss bss)])
+      | Err x => res_of (@Err unit x) (fun _ => [])
+      | Panic w => res_of (@Panic unit w) (fun _ => [])
+      | OutOfFuel => res_of (@OutOfFuel unit) (fun _ => [])
+      end
+  end.
+
 Definition kf_of (sy : system) (o : json) : list string :=
   let op := jfS "op" o in
+  if String.eqb op "query" then
+    let ps := query_patterns (jsize (jget_d "query" o)) (jnorm (jget_d "query" o)) in
+    ((if existsb (fun p => match extract_terms p with [] => true | _ => false end) ps then ["D8"] else []) ++
+     (if existsb has_propvar ps then ["D9"] else []))%list
+  else
   if String.eqb op "search" then
     let p := jnorm (jget_d "pattern" o) in
     ((match extract_terms p with [] => ["D8"] | _ => [] end) ++
@@ -159,7 +212,10 @@ Definition all_facts (sy : system) : list json :=
 
 Definition op_risky (sy : system) (o : json) : bool :=
   let op := jfS "op" o in
-  if String.eqb op "search" then
+  if String.eqb op "query" then
+    existsb (fun p => existsb (fun f => struct_risk p f [] || negb (ground f)) (all_facts sy))
+            (query_patterns (jsize (jget_d "query" o)) (jnorm (jget_d "query" o)))
+  else if String.eqb op "search" then
     let p := jnorm (jget_d "pattern" o) in
     existsb (fun f => struct_risk p f [] || negb (ground f)) (all_facts sy)
   else if String.eqb op "event" then
@@ -271,11 +327,11 @@ Definition step_acc (a : acc) (o : json) : acc :=
             if (String.eqb (jfS "op" o) "remfact" || String.eqb (jfS "op" o) "remrule") && negb amb && jfB "ok" m
             then judge_removal sy0 sy' o t
             else if is_read_op (jfS "op" o) && negb amb then
-              let '(_, sm) := run_op (as_linear sy0) o t in
-              if same_res sm obs then (false, [])
-              else
-                let '(_, sm2) := run_op (as_linear sy0) o t2 in
-                if same_res sm2 obs then (false, []) else (true, kf_of sy0 o)
+              let spec_res now :=
+                if String.eqb (jfS "op" o) "query" then spec_query sy0 o now
+                else snd (run_op (as_linear sy0) o now) in
+              if same_res (spec_res t) obs then (false, [])
+              else if same_res (spec_res t2) obs then (false, []) else (true, kf_of sy0 o)
             else (false, []) in
           mkAcc sy' (a_k a + 1) None
                 (match a_spec a with
